@@ -576,6 +576,40 @@ func ruleCallbackReentrancy() check.Rule {
 					c.OK(key, p.Types.Scope().Lookup(tname).Pos(), "no stored observer is notified while a lock of the subscriber teardown (%s) is held", tdLocks)
 				}
 			}
+			// the same for operators: a teardown literal handed to Add / AddUnsubscribable of a subscription while a lock
+			// it takes is held runs at once when that subscription is already closed, on this goroutine
+			nAdd := 0
+			for _, sc := range m.SCs {
+				for _, op := range sc.SubOps {
+					if op.Method != "Add" || op.Call == nil || op.Arg == nil || op.Arg.Kind != model.AVFunc || op.Arg.Lit == nil {
+						continue
+					}
+					taken := lockset.Set{}
+					for _, lo := range lockResult(op.Pkg, op.Arg.Lit).Ops {
+						if lo.Kind == "Lock" || lo.Kind == "RLock" {
+							taken[lo.Key] = true
+						}
+					}
+					if len(taken) == 0 {
+						continue
+					}
+					nAdd++
+					held := h.heldAt(op.Pkg, op.Call)
+					akey := fmt.Sprintf("%s/add#%d-outside-teardown-lock", sc, nAdd)
+					clash := ""
+					for k := range taken {
+						if held[k] {
+							clash = k
+						}
+					}
+					if clash != "" {
+						c.Report(c.Armed(sc), akey, op.Call.Pos(), "a teardown that takes %s is registered with Add while %s is held: Add runs it immediately when the subscription is already closed, and the goroutine blocks on the lock it holds", lockShort(clash), lockShort(clash))
+					} else if c.Armed(sc) {
+						c.OK(akey, op.Call.Pos(), "registered outside the locks it takes")
+					}
+				}
+			}
+			c.Inc("operator_locking_teardown_registrations", nAdd)
 		},
 	}
 }
